@@ -75,7 +75,7 @@ def gen_case(rng, idx, heavy):
 
 
 def generate(rng, tier):
-    n = dict(quick=400, thorough=6000, search=1500)[tier]
+    n = dict(quick=400, thorough=30000, search=1500)[tier]
     cases = [gen_case(rng.fork(), i, heavy=(tier == 'thorough' and i % 50 == 0)) for i in range(n)]
     idx = n
     # exhaustive single-bit flips + truncations of a few small frames, byte level (model and implementation)
